@@ -28,6 +28,7 @@ type c12Piece struct {
 
 type c12Case struct {
 	Pieces  []c12Piece
+	Before  []c12Piece `json:",omitempty"` // an earlier connection to the SAME server, served to its end before this one
 	Note    string
 	UAFault map[string]string `json:",omitempty"` // underlying-agent request index -> fault kind (relaxed oracle: service may end there, but only with an error)
 }
@@ -103,6 +104,15 @@ func c12Run(c *ev.Ctx, k c12Case, single bool) {
 		var i int
 		fmt.Sscanf(is, "%d", &i)
 		w.ua.Plan[i] = kind
+	}
+	if len(k.Before) > 0 {
+		// an earlier client connection on the same server: whatever it did, the next connection is judged as usual
+		pre, _ := c12Build(c12Case{Pieces: k.Before})
+		var sink bytes.Buffer
+		if pn := ev.Guard(func() { yubiagent.ServeAgent(w.srv, rw{bytes.NewReader(pre), &sink}) }); pn != "" {
+			c.Violation("C12:crash:"+ev.PanicSite(pn), "serving the earlier connection crashed:\n"+pn, k)
+			return
+		}
 	}
 	var out bytes.Buffer
 	var serveErr error
@@ -208,7 +218,7 @@ func c12Run(c *ev.Ctx, k c12Case, single bool) {
 }
 
 func checkC12(c *ev.Ctx) {
-	c.Rule("yubiagent.ServeAgent called synchronously on (bytes.Reader, bytes.Buffer) with the real *server (NewServer through the dial seam, remote mode) over the real shim and the harness underlying agent. Streams: every message code 0..255 x {code only, +00, +FF, +4 zero bytes} (wait frames use awaited codes 40/255), the empty frame, ~90 grammar-derived canonical and truncated frames (both add-hardware-certificate encodings, slot names, wait, every standard agent request incl. constraint bytes, raw-forward requests), prefix pathologies (0..3 prefix bytes; declared 1, 2, 16MiB, 16MiB+1, 2^31, 2^32-1 with 0/1/all body bytes), every ordered pair of a 37-piece representative set, every triple over a 20-piece subset (thorough: all triples, quadruples over 14). Oracle: no crash, framed output, one response per well-formed request in order with the expected type/content, service ends only at malformed frames and then with an error, clean end returns nil, allocation bound for oversized declarations. non-trivial = well-formed request answered; distinct by (frame, position)")
+	c.Rule("yubiagent.ServeAgent called synchronously on (bytes.Reader, bytes.Buffer) with the real *server (NewServer through the dial seam, remote mode) over the real shim and the harness underlying agent. Streams: every message code 0..255 x {code only, +00, +FF, +4 zero bytes} (wait frames use awaited codes 40/255), the empty frame, ~90 grammar-derived canonical and truncated frames (both add-hardware-certificate encodings, slot names, wait, every standard agent request incl. constraint bytes, raw-forward requests), prefix pathologies (0..3 prefix bytes; declared 1, 2, 16MiB, 16MiB+1, 2^31, 2^32-1 with 0/1/all body bytes), every ordered pair of a 37-piece representative set, every piece on a SECOND connection after an earlier connection to the same server ended in one of 8 ways, every triple over a 20-piece subset (thorough: all triples, quadruples over 14). Oracle: no crash, framed output, one response per well-formed request in order with the expected type/content, service ends only at malformed frames and then with an error, clean end returns nil, allocation bound for oversized declarations. non-trivial = well-formed request answered; distinct by (frame, position)")
 	c.Assume("frames are classified well-formed only when they are canonical encodings produced by the harness grammar (x/crypto's own client for standard requests); for everything else either 'answered' or 'connection ended with an error' is accepted", "awaited codes below 40 block by design and are explored under C20")
 	c12Frames = map[string]frameSpec{}
 	gf := grammarFrames()
@@ -325,6 +335,15 @@ func checkC12(c *ev.Ctx) {
 					}
 				}
 			}
+		}
+	}
+	// two connections, one after the other, on the same server: the earlier one ends in every way a connection can end
+	for _, before := range [][]c12Piece{{{Frame: "hardcert-new-held-key"}}, {{Frame: "hardcert-code-only"}}, {{Frame: "wait-code-only"}}, {{Raw: "00000000"}}, {{Raw: "01000001"}}, {{Frame: "list"}, {Raw: "0000"}},
+		{{Frame: "add-constrained-confirm-then-truncated-lifetime"}}, {{Frame: "hardcert-new-utf8-comment"}, {Frame: "sign-truncated@5/" + fmt.Sprint(len(c12Frames["sign-k1"].Body))}}} {
+		for _, a := range pieces {
+			c12Run(c, c12Case{Before: before, Pieces: []c12Piece{a}, Note: "second connection"}, false)
+			c12Run(c, c12Case{Before: before, Pieces: []c12Piece{{Frame: "list"}, a, {Frame: "sign-k1"}}, Note: "second connection"}, false)
+			n += 2
 		}
 	}
 	// the underlying agent fails during a request: the connection may end there, but only with an error
